@@ -476,6 +476,120 @@ Lemma pipeline_split_invariant e input pieces :
   Ok (strip_bom_pieces pieces) = pipeline (Some (enc_name e)) input.
 Proof. intro H. rewrite pipeline_unfold, strip_bom_pieces_spec, H. reflexivity. Qed.
 
+(* ---- every byte becomes exactly one rune; nothing is dropped, anywhere ------------------------- *)
+(* the bytes a code page byte decodes to are one complete UTF-8 sequence of the table's rune,
+   whatever follows *)
+Lemma dec_byte_one_rune cp : is_codepage cp ->
+  forall b rest, decode_rune (dec_byte cp b ++ rest) = (cp b, List.length (dec_byte cp b)).
+Proof. intros [-> | ->] b rest; destruct b; reflexivity. Qed.
+
+Lemma dec_byte_length cp : is_codepage cp ->
+  forall b, (1 <= List.length (dec_byte cp b) <= 3)%nat.
+Proof.
+  intros Hc b.
+  assert (S : (Nat.leb 1 (List.length (dec_byte cp b)) && Nat.leb (List.length (dec_byte cp b)) 3) = true).
+  { destruct Hc as [-> | ->].
+    - apply (sweep_bytes (fun b => Nat.leb 1 (List.length (dec_byte cp_iso8859_1 b)) && Nat.leb (List.length (dec_byte cp_iso8859_1 b)) 3)).
+      vm_compute; reflexivity.
+    - apply (sweep_bytes (fun b => Nat.leb 1 (List.length (dec_byte cp_windows1252 b)) && Nat.leb (List.length (dec_byte cp_windows1252 b)) 3)).
+      vm_compute; reflexivity. }
+  apply andb_true_iff in S as [S1 S2]. apply Nat.leb_le in S1, S2. lia.
+Qed.
+
+Lemma runes_fuel_decode cp : is_codepage cp ->
+  forall s fuel, (List.length (decode cp s) <= fuel)%nat ->
+  runes_fuel fuel (decode cp s) = map (fun b => (cp b, List.length (dec_byte cp b))) s.
+Proof.
+  intros Hc s. induction s as [|b s IH]; intros fuel Hf.
+  - destruct fuel; reflexivity.
+  - change (decode cp (b :: s)) with (dec_byte cp b ++ decode cp s) in *.
+    pose proof (dec_byte_length cp Hc b) as Hl.
+    rewrite app_length in Hf.
+    destruct fuel as [|k]; [lia|].
+    destruct (dec_byte cp b ++ decode cp s) as [|c tl] eqn:E.
+    { apply (f_equal (@List.length byte)) in E. rewrite app_length in E. simpl in E. lia. }
+    cbn [runes_fuel]. rewrite <- E. rewrite (dec_byte_one_rune cp Hc b (decode cp s)).
+    cbn [map]. f_equal.
+    rewrite skipn_app, skipn_all, Nat.sub_diag. simpl.
+    apply IH. lia.
+Qed.
+
+(* utf8's view of the decoded stream: one rune per input byte, the code page's rune, in order *)
+Lemma runes_decode cp : is_codepage cp -> forall s, runes (decode cp s) = map cp s.
+Proof.
+  intros Hc s. unfold runes, runes_sz. rewrite (runes_fuel_decode cp Hc s) by lia.
+  rewrite map_map. reflexivity.
+Qed.
+
+Lemma rune_count_decode cp : is_codepage cp -> forall s, rune_count (decode cp s) = List.length s.
+Proof.
+  intros Hc s. unfold rune_count, runes_sz. rewrite (runes_fuel_decode cp Hc s) by lia.
+  apply map_length.
+Qed.
+
+(* the last byte of the input is decoded like every other one (no byte value is special at the
+   end: 0x1A, 0x00, an undefined byte ...) *)
+Lemma decode_snoc cp : is_codepage cp -> forall s b,
+  decode cp (s ++ [b]) = decode cp s ++ dec_byte cp b /\ dec_byte cp b <> [].
+Proof.
+  intros Hc s b. split.
+  - rewrite decode_app. unfold decode at 2. simpl. rewrite app_nil_r. reflexivity.
+  - pose proof (dec_byte_length cp Hc b). intro E. rewrite E in H. simpl in H. lia.
+Qed.
+
+Lemma decode_length_ge cp : is_codepage cp -> forall s, (List.length s <= List.length (decode cp s))%nat.
+Proof.
+  intros Hc s. induction s as [|b s IH]; [simpl; lia|].
+  change (decode cp (b :: s)) with (dec_byte cp b ++ decode cp s).
+  rewrite app_length. pose proof (dec_byte_length cp Hc b). simpl. lia.
+Qed.
+
+(* the decoded stream is well-formed UTF-8 (the undefined windows-1252 bytes become the
+   three-byte U+FFFD, not a stray byte) *)
+Lemma decode_utf8_valid cp : is_codepage cp -> forall s, utf8_valid (decode cp s) = true.
+Proof.
+  intros Hc s. unfold utf8_valid, runes_sz. rewrite (runes_fuel_decode cp Hc s) by lia.
+  apply forallb_forall. intros [r n] Hin. apply in_map_iff in Hin as (b & E & _).
+  inversion E; subst. clear E. simpl.
+  assert (S : negb ((cp b =? RuneError) && Nat.eqb (List.length (dec_byte cp b)) 1) = true).
+  { destruct Hc as [-> | ->].
+    - apply (sweep_bytes (fun b => negb ((cp_iso8859_1 b =? RuneError) && Nat.eqb (List.length (dec_byte cp_iso8859_1 b)) 1))).
+      vm_compute; reflexivity.
+    - apply (sweep_bytes (fun b => negb ((cp_windows1252 b =? RuneError) && Nat.eqb (List.length (dec_byte cp_windows1252 b)) 1))).
+      vm_compute; reflexivity. }
+  exact S.
+Qed.
+
+(* windows-1252: exactly the five bytes CP1252.TXT leaves undefined become U+FFFD *)
+Definition cp1252_unassigned (b : byte) : bool :=
+  match b with x81 | x8d | x8f | x90 | x9d => true | _ => false end.
+Lemma windows1252_unassigned b :
+  (cp_windows1252 b = RuneError <-> cp1252_unassigned b = true)
+  /\ (cp1252_unassigned b = true -> dec_byte cp_windows1252 b = [xef; xbf; xbd]).
+Proof.
+  assert (S : Bool.eqb (cp_windows1252 b =? RuneError) (cp1252_unassigned b)
+              && implb (cp1252_unassigned b) (bytes_eqb (dec_byte cp_windows1252 b) [xef; xbf; xbd]) = true).
+  { apply (sweep_bytes (fun b => Bool.eqb (cp_windows1252 b =? RuneError) (cp1252_unassigned b)
+              && implb (cp1252_unassigned b) (bytes_eqb (dec_byte cp_windows1252 b) [xef; xbf; xbd]))).
+    vm_compute; reflexivity. }
+  apply andb_true_iff in S as [S1 S2]. apply Bool.eqb_prop in S1. split.
+  - rewrite <- S1. symmetry. apply N.eqb_eq.
+  - intro H. rewrite H in S2. simpl in S2. apply bytes_eqb_eq in S2. exact S2.
+Qed.
+
+(* ---- the utf-8 path is the identity (minus one leading mark) on ALL byte strings ------------ *)
+Lemma strip_bom_suffix s : exists p, s = p ++ strip_bom s /\ (p = [] \/ p = bom_bytes).
+Proof.
+  rewrite strip_bom_spec. destruct (starts_with bom_bytes s) eqn:E.
+  - apply starts_with_iff in E as (r & ->). exists bom_bytes. split; [reflexivity | right; reflexivity].
+  - exists []. split; [reflexivity | left; reflexivity].
+Qed.
+
+Lemma utf8_path_identity s :
+  decode_with DecIdentity s = s /\ pipeline (Some (enc_name Utf8)) s = Ok (strip_bom s)
+  /\ pipeline None s = Ok (strip_bom s).
+Proof. split; [reflexivity|]. split; [apply pipeline_unfold | rewrite pipeline_default; apply pipeline_unfold]. Qed.
+
 (* ---- the tables observed from the implementation ---------------------------------------------- *)
 (* check_case on a TableCase is a complete comparison over the finite domain. *)
 Lemma table_case_sound enc obs :
